@@ -21,16 +21,23 @@ import (
 )
 
 const c19tRule = "TestC19Toggle: a directory written by a server with the referrers API on or off (tagged image, index over a child pushed by digest, artifact with subject, second repository); a vector of " +
-	"{push, delete, blob delete, referrers, read-only, store dir|mem over the directory} is drawn and one switch of it is toggled; both settings serve a copy of the directory and answer the same probes (reads by tag and digest, " +
+	"{push, delete, blob delete, referrers, read-only, store dir|mem over the directory, warnings, rate limit 1000, gc disabled, manifest limit 200 bytes, one upload per repository} is drawn and one switch of it is toggled; both settings serve a copy of the directory and answer the same probes (reads by tag and digest, " +
 	"blobs, tag listing, referrers, then blob upload, manifest push, tag delete, blob delete); oracle = answers equal between the two except on the probes the toggled switch governs, where each side follows the documented " +
 	"table (405 when the API is off, 403 when read-only, 404 referrers when disabled); status and body of reads are compared; non-trivial = the vector differs from the defaults in >=1 other switch; distinct = (writer setting, vector, toggled switch)"
 
 type c19tVec struct {
 	push, del, blobDel, referrer, ro, mem bool
+	// settings whose documented effect is none on these probes, or a header, or one kind of request only
+	warnings      bool // two warning texts: a Warning header pair on every response, nothing else
+	rateLimit     bool // 1000 requests per second instead of unlimited: nothing within the limit
+	gcDisabled    bool // negative gc frequency instead of an idle ticker: nothing without a collection
+	manifestLimit bool // manifests limited to 200 bytes: every manifest push is refused, reads are not concerned
+	uploadMax     bool // one upload session per repository instead of the default: nothing for one session at a time
 }
 
 func (v c19tVec) String() string {
-	return fmt.Sprintf("push=%v delete=%v blobDelete=%v referrer=%v readOnly=%v store=%s", v.push, v.del, v.blobDel, v.referrer, v.ro, map[bool]string{true: "mem over dir", false: "dir"}[v.mem])
+	return fmt.Sprintf("push=%v delete=%v blobDelete=%v referrer=%v readOnly=%v store=%s warnings=%v rateLimit=%v gcDisabled=%v manifestLimit200=%v uploadMax1=%v", v.push, v.del, v.blobDel, v.referrer, v.ro,
+		map[bool]string{true: "mem over dir", false: "dir"}[v.mem], v.warnings, v.rateLimit, v.gcDisabled, v.manifestLimit, v.uploadMax)
 }
 
 func (v c19tVec) conf(root string) config.Config {
@@ -40,6 +47,21 @@ func (v c19tVec) conf(root string) config.Config {
 	}
 	c := baseConf(kind, root)
 	c.API.PushEnabled, c.API.DeleteEnabled, c.API.Blob.DeleteEnabled, c.API.Referrer.Enabled, c.Storage.ReadOnly = bp(v.push), bp(v.del), bp(v.blobDel), bp(v.referrer), bp(v.ro)
+	if v.warnings {
+		c.API.Warnings = []string{"first warning", "second warning"}
+	}
+	if v.rateLimit {
+		c.API.RateLimit = 1000
+	}
+	if v.gcDisabled {
+		c.Storage.GC.Frequency = -1
+	}
+	if v.manifestLimit {
+		c.API.Manifest.Limit = 200
+	}
+	if v.uploadMax {
+		c.Storage.GC.RepoUploadMax = 1
+	}
 	return c
 }
 
@@ -48,6 +70,7 @@ type c19tAnswer struct {
 	code int
 	body string
 	subj string // OCI-Subject header
+	warn string // Warning headers
 }
 
 // c19tProbe runs the probe set against a server on its own copy of the directory.
@@ -59,9 +82,10 @@ func c19tProbe(v c19tVec, src string, names map[string]string) []c19tAnswer {
 	srv := olareg.New(v.conf(dir))
 	defer func() { _ = srv.Close() }()
 	out := []c19tAnswer{}
+	wh := func(r resp) string { return strings.Join(r.hdr.Values("Warning"), " | ") }
 	rd := func(name, path string) {
 		r := doReq(srv, "GET", path, nil, hdr("Accept", acceptAll))
-		out = append(out, c19tAnswer{name: name, code: r.code, body: string(r.body)})
+		out = append(out, c19tAnswer{name: name, code: r.code, body: string(r.body), warn: wh(r)})
 	}
 	rd("manifest by tag", "/v2/pre/manifests/v1")
 	rd("manifest by digest", "/v2/pre/manifests/"+names["img"])
@@ -80,21 +104,21 @@ func c19tProbe(v c19tVec, src string, names map[string]string) []c19tAnswer {
 	// writes, each on fresh content
 	nb := []byte("a new blob")
 	r := doReq(srv, "POST", "/v2/pre/blobs/uploads/?digest="+dig("sha256", nb), nb, nil)
-	out = append(out, c19tAnswer{name: "blob upload", code: r.code})
+	out = append(out, c19tAnswer{name: "blob upload", code: r.code, warn: wh(r)})
 	r = doReq(srv, "POST", "/v2/pre/blobs/uploads/", nil, nil)
-	out = append(out, c19tAnswer{name: "upload session", code: r.code})
+	out = append(out, c19tAnswer{name: "upload session", code: r.code, warn: wh(r)})
 	nimg, _ := buildImage(mtImage, mtConfig, names["cfg"], 2, nil, nil, nil, "", map[string]string{"new": "1"})
 	r = doReq(srv, "PUT", "/v2/pre/manifests/v2", nimg, hdr("Content-Type", mtImage))
-	out = append(out, c19tAnswer{name: "manifest push", code: r.code})
+	out = append(out, c19tAnswer{name: "manifest push", code: r.code, warn: wh(r)})
 	nart, _ := buildImage(mtImage, mtConfig, names["cfg"], 2, nil, nil, &mdesc{MediaType: mtImage, Digest: names["img"], Size: 1}, "application/vnd.x.sbom", nil)
 	r = doReq(srv, "PUT", "/v2/pre/manifests/"+dig("sha256", nart), nart, hdr("Content-Type", mtImage))
-	out = append(out, c19tAnswer{name: "artifact push", code: r.code, subj: r.hdr.Get("OCI-Subject")})
+	out = append(out, c19tAnswer{name: "artifact push", code: r.code, subj: r.hdr.Get("OCI-Subject"), warn: wh(r)})
 	r = doReq(srv, "DELETE", "/v2/second/manifests/latest", nil, nil)
-	out = append(out, c19tAnswer{name: "tag delete", code: r.code})
+	out = append(out, c19tAnswer{name: "tag delete", code: r.code, warn: wh(r)})
 	r = doReq(srv, "DELETE", "/v2/pre/manifests/"+names["art"], nil, nil)
-	out = append(out, c19tAnswer{name: "manifest delete by digest", code: r.code})
+	out = append(out, c19tAnswer{name: "manifest delete by digest", code: r.code, warn: wh(r)})
 	r = doReq(srv, "DELETE", "/v2/pre/blobs/"+names["layer"], nil, nil)
-	out = append(out, c19tAnswer{name: "blob delete", code: r.code})
+	out = append(out, c19tAnswer{name: "blob delete", code: r.code, warn: wh(r)})
 	// reads after the writes: what was refused changed nothing, what was accepted is visible
 	rd("tag listing afterwards", "/v2/pre/tags/list")
 	rd("manifest by tag afterwards", "/v2/pre/manifests/v1")
@@ -115,15 +139,19 @@ func c19tGoverned(sw string) map[string]bool {
 		return map[string]bool{"referrers": true, "referrers filtered": true, "artifact push": true}
 	case "readOnly":
 		return map[string]bool{"blob upload": true, "upload session": true, "manifest push": true, "artifact push": true, "tag delete": true, "manifest delete by digest": true, "blob delete": true, "tag listing afterwards": true}
+	case "manifestLimit":
+		return map[string]bool{"manifest push": true, "artifact push": true, "tag listing afterwards": true}
 	}
-	return map[string]bool{} // the store type changes where writes go, not what is answered
+	return map[string]bool{} // the store type changes where writes go, not what is answered; warnings: a header; the others: nothing
 }
 
 func c19tProperty(t *rapid.T, st *Stats) {
 	writerReferrer := rapid.IntRange(0, 3).Draw(t, "writtenWithReferrersAPI") > 0
 	v := c19tVec{push: rapid.IntRange(0, 3).Draw(t, "push") > 0, del: rapid.Bool().Draw(t, "delete"), blobDel: rapid.Bool().Draw(t, "blobDelete"), referrer: rapid.IntRange(0, 3).Draw(t, "referrer") > 0,
 		ro: rapid.IntRange(0, 3).Draw(t, "readOnly") == 0, mem: rapid.IntRange(0, 2).Draw(t, "memOverDir") == 0}
-	sw := rapid.SampledFrom([]string{"push", "delete", "blobDelete", "referrer", "readOnly", "store"}).Draw(t, "toggle")
+	v.warnings, v.rateLimit, v.gcDisabled = rapid.IntRange(0, 3).Draw(t, "warnings") == 0, rapid.IntRange(0, 3).Draw(t, "rateLimit") == 0, rapid.IntRange(0, 3).Draw(t, "gcDisabled") == 0
+	v.manifestLimit, v.uploadMax = rapid.IntRange(0, 5).Draw(t, "manifestLimit") == 0, rapid.IntRange(0, 3).Draw(t, "uploadMax") == 0
+	sw := rapid.SampledFrom([]string{"push", "delete", "blobDelete", "referrer", "readOnly", "store", "push", "delete", "blobDelete", "referrer", "readOnly", "store", "warnings", "rateLimit", "gcDisabled", "manifestLimit", "uploadMax"}).Draw(t, "toggle")
 	w := v
 	switch sw {
 	case "push":
@@ -138,6 +166,16 @@ func c19tProperty(t *rapid.T, st *Stats) {
 		w.ro = !w.ro
 	case "store":
 		w.mem = !w.mem
+	case "warnings":
+		w.warnings = !w.warnings
+	case "rateLimit":
+		w.rateLimit = !w.rateLimit
+	case "gcDisabled":
+		w.gcDisabled = !w.gcDisabled
+	case "manifestLimit":
+		w.manifestLimit = !w.manifestLimit
+	case "uploadMax":
+		w.uploadMax = !w.uploadMax
 	}
 	if writerReferrer && (!v.referrer || !w.referrer) && avoid("C19/referrers-off-on-converted-layout") {
 		st.Exclude("C19/referrers-off-on-converted-layout: a directory written with the referrers API on is served with it off")
@@ -186,7 +224,7 @@ func c19tProperty(t *rapid.T, st *Stats) {
 		if governed[a[i].name] {
 			continue
 		}
-		if a[i].code != b[i].code || a[i].body != b[i].body || a[i].subj != b[i].subj {
+		if a[i].code != b[i].code || a[i].body != b[i].body || a[i].subj != b[i].subj || (sw != "warnings" && a[i].warn != b[i].warn) {
 			diffs = append(diffs, fmt.Sprintf("%s: A %d %q | B %d %q", a[i].name, a[i].code, trunc([]byte(a[i].body), 100), b[i].code, trunc([]byte(b[i].body), 100)))
 		}
 	}
@@ -234,6 +272,19 @@ func c19tProperty(t *rapid.T, st *Stats) {
 			case (strings.Contains(why, "push") || strings.Contains(why, "delete")) && side.v.ro:
 				want, why = 403, "--store-ro"
 			}
+			if side.v.manifestLimit && want == 201 && (x.name == "manifest push" || x.name == "artifact push") {
+				want, why = 413, "the manifest is larger than the configured limit of 200 bytes"
+				if x.code == 400 {
+					want = 400 // the code answers 400 MANIFEST_INVALID "manifest too large"; either status says it
+				}
+			}
+			wantWarn := ""
+			if side.v.warnings {
+				wantWarn = `299 - "first warning" | 299 - "second warning"`
+			}
+			if x.warn != wantWarn {
+				fail("warning-header", "%s: %s carries the Warning headers %q, want %q", side.n, x.name, x.warn, wantWarn)
+			}
 			if x.code != want && !(want == 405 && side.v.ro && x.code == 403) { // switched off and read-only: either refusal describes it
 				fail("switch-effect", "%s: %s answered %d, want %d because %s", side.n, x.name, x.code, want, why)
 			}
@@ -243,7 +294,7 @@ func c19tProperty(t *rapid.T, st *Stats) {
 		}
 	}
 	nd := 0
-	for _, x := range []bool{!v.push, v.del, v.blobDel, !v.referrer, v.ro, v.mem} {
+	for _, x := range []bool{!v.push, v.del, v.blobDel, !v.referrer, v.ro, v.mem, v.warnings, v.rateLimit, v.gcDisabled, v.manifestLimit, v.uploadMax} {
 		if x {
 			nd++
 		}
